@@ -481,9 +481,13 @@ func jsonParse(data []byte, useNumber, disallow bool) (map[string]interface{}, b
 	return nil, false
 }
 
-// jsonDecode is what the executor runs in place of (*json.Decoder).Decode.
-func jsonDecode(r io.Reader, useNumber, disallow bool, v interface{}) error {
-	var data []byte
+// jsonDecode is what the executor runs in place of (*json.Decoder).Decode. Like the real decoder it reads ahead:
+// everything the reader has is appended to the decoder's buffer (pending, the real struct's buf field), the value
+// is parsed from the start of that buffer, and the parser consumes an arbitrary non-empty prefix; what it did not
+// consume stays in the decoder for its next Decode call. The returned object records the bytes the parse started
+// from (its "__frame__"): for a decoder made for one frame that is the frame.
+func jsonDecode(r io.Reader, pending *[]byte, useNumber, disallow bool, v interface{}) error {
+	data := *pending
 	buf := make([]byte, 512)
 	for i := 0; i < 16; i++ {
 		n, err := r.Read(buf)
@@ -494,8 +498,14 @@ func jsonDecode(r io.Reader, useNumber, disallow bool, v interface{}) error {
 	}
 	obj, ok := jsonParse(data, useNumber, disallow)
 	if !ok {
+		*pending = nil
 		return errJSON
 	}
+	k := len(data)
+	if k > 1 && k <= 4 {
+		k = 1 + Choose(k) // the first value ends somewhere in the buffer
+	}
+	*pending = append([]byte(nil), data[k:]...)
 	if p, isMap := v.(*map[string]interface{}); isMap {
 		*p = obj
 	}
